@@ -33,7 +33,6 @@ hera-py toolkit (interpreter, debugger, assembler, etc.)!
 Author:  Ian Fisher (iafisher@fastmail.com)
 Version: July 2019
 """
-import json
 import sys
 from contextlib import suppress
 
@@ -136,9 +135,34 @@ class AbstractOperation:
         )
 
 
+def string_to_literal(s):
+    """
+    Write the string as a HERA string literal, using only the escapes that the lexer
+    understands: \\n, \\t, \\\\ and \\", two-digit hex escapes for other characters below
+    256, and three-digit octal escapes above.
+    """
+    chars = []
+    for c in s:
+        if c == "\n":
+            chars.append("\\n")
+        elif c == "\t":
+            chars.append("\\t")
+        elif c == "\\":
+            chars.append("\\\\")
+        elif c == '"':
+            chars.append('\\"')
+        elif 32 <= ord(c) < 127:
+            chars.append(c)
+        elif ord(c) < 256:
+            chars.append("\\x{:02x}".format(ord(c)))
+        else:
+            chars.append("\\{:03o}".format(ord(c)))
+    return '"' + "".join(chars) + '"'
+
+
 def arg_to_string(arg):
     if arg.type == Token.STRING:
-        return json.dumps(arg.value)
+        return string_to_literal(arg.value)
     elif arg.type == Token.REGISTER:
         return "R" + str(arg.value)
     else:
